@@ -500,6 +500,10 @@ class Interp:
                 if hk[0] == "edge" and hk != root:
                     cur = state.heap[hk]
                     state.heap[hk] = av_set(cur, proj, av, self.uni, weak=True) if proj else join(cur, av)
+        elif root[0] == "marktable":
+            info = self.sym_info.get(root[2], (frozenset(), None))
+            self.rec.put("mark", self.sitekey(frame, bi, si),
+                         dict(fn=frame.body.name, bb=bi, span=span, key=(root[2], info[0]), value=av, stack=frame.stack, fid=frame.fid))
         elif root == ("self",):
             self.rec.put("store_self", self.sitekey(frame, bi, si),
                          dict(fn=frame.body.name, bb=bi, span=span, proj=proj, value=av,
